@@ -427,6 +427,8 @@ pub struct Gui<'a> {
     /// a `position` line reached the engine while it was searching: what it holds afterwards is not
     /// specified (the shipped code ignores it) until the next position command given while idle
     pub cur_uncertain: bool,
+    /// an idle-position mismatch seen during a search window, reported after the window's own oracles
+    pub deferred_idle_mismatch: Option<V>,
 }
 
 fn fail_to_violation(f: Fail, focus_prop: &str, context: &str) -> V {
@@ -451,7 +453,7 @@ fn panic_site(msg: &str) -> String {
 impl<'a> Gui<'a> {
     pub fn start(knobs: &Knobs, focus: &str, res: &'a mut RunResult) -> Result<Gui<'a>, V> {
         let sess = Session::start(knobs).map_err(|f| fail_to_violation(f, "C07", "engine start-up"))?;
-        let mut g = Gui { sess, cur: CurPos::startpos(), res, log: Fnv::default(), shape: Fnv::default(), knobs: knobs.clone(), last_best: None, focus: focus.to_string(), clock_ns: 1_000_000_000_000, debug_on: false, blame_idle: ("C09", "engine_position_changed"), summaries: Vec::new(), cur_uncertain: false };
+        let mut g = Gui { sess, cur: CurPos::startpos(), res, log: Fnv::default(), shape: Fnv::default(), knobs: knobs.clone(), last_best: None, focus: focus.to_string(), clock_ns: 1_000_000_000_000, debug_on: false, blame_idle: ("C09", "engine_position_changed"), summaries: Vec::new(), cur_uncertain: false, deferred_idle_mismatch: None };
         g.absorb_events(None)?;
         Ok(g)
     }
@@ -504,7 +506,14 @@ impl<'a> Gui<'a> {
                     }
                     let want = self.cur.root().to_fen();
                     if f != want && !self.cur_uncertain {
-                        return Err(viol(self.blame_idle.0, self.blame_idle.1, format!("search thread idles on {} but the last accepted position is {}", f, want)));
+                        let v = viol(self.blame_idle.0, self.blame_idle.1, format!("search thread idles on {} but the last accepted position is {}", f, want));
+                        // in the exactness checks the search oracle speaks first: a search that ran on
+                        // another position than the one set is a wrong score / wrong move there
+                        if matches!(self.focus.as_str(), "C08" | "C11") && win.is_some() && self.deferred_idle_mismatch.is_none() {
+                            self.deferred_idle_mismatch = Some(v);
+                        } else {
+                            return Err(v);
+                        }
                     }
                 }
                 Event::IdleExit => {}
@@ -813,6 +822,9 @@ impl<'a> Gui<'a> {
                 v.detail = format!("[{} oracle, go without position after an interrupted search] {}", v.property, v.detail);
                 v.property = "C09".into();
             }
+            return Err(v);
+        }
+        if let Some(v) = self.deferred_idle_mismatch.take() {
             return Err(v);
         }
         self.sess.settle_idle().map_err(|f| fail_to_violation(f, "C07", "after search"))?;
@@ -1435,8 +1447,10 @@ pub fn gen_plan_marathon(focus: &str, seed: u64, pool: &[Pos]) -> EnginePlan {
     let quiet = |pos: PosSpec, go: GoSpec, newgame: bool| Cycle { newgame, pos, pre_lines: vec![], go, ns_per_node: 1000, gap_ns: 1_000_000, jumps: vec![], stop_before_dequeue: false, events: vec![], post_lines: vec![] };
     let mut cycles = Vec::new();
     for i in 0..first + 256 {
-        if i >= 256 && i - 256 < firsts.len() {
-            let (fen, moves, d) = firsts[i - 256].clone();
+        // exactly 256 searches after the first visit, whatever was skipped in between
+        let n = cycles.len();
+        if n >= 256 && n - 256 < firsts.len() {
+            let (fen, moves, d) = firsts[n - 256].clone();
             let mut g = GoSpec::depth(1 + rng.below(d));
             g.layout = rng.next_u64();
             g.searchmoves_picks = vec![rng.below(256) as u32];
@@ -1650,6 +1664,40 @@ pub fn gen_plan_exact(seed: u64, thorough: bool, pool: &[Pos], mates: &[(Pos, u3
         cycles.push(Cycle { newgame: ci == 0 || rng.chance(1, 4), pos: PosSpec::Set { fen: game.fen.clone(), moves: game.moves.clone() }, pre_lines: vec![], go: g, ns_per_node: *rng.pick(&[1u64, 1000, 1_000_000]), gap_ns: 1_000_000, jumps: vec![], stop_before_dequeue: false, events: vec![], post_lines: vec![] });
     }
     EnginePlan { focus: "C08".into(), knobs, cycles, enumerate_interrupts: false, twin: false }
+}
+
+/// C08 sessions with a disturbed history: "irrespective of what was searched before on the same
+/// engine instance" includes an infinite search that was interrupted while a `position` command
+/// for some other game arrived. The next cycle sets its own position and must be searched exactly.
+pub fn gen_plan_exact_disturbed(seed: u64, thorough: bool, pool: &[Pos], mates: &[(Pos, u32)]) -> EnginePlan {
+    let mut p = gen_plan_exact(seed, thorough, pool, mates);
+    let mut rng = Rng::new(seed ^ 0xd157_0b3d);
+    if !rng.chance(1, 4) {
+        return p;
+    }
+    let targets: Vec<usize> = p.cycles.iter().enumerate().filter(|(_, c)| matches!(c.pos, PosSpec::Set { .. })).map(|(i, _)| i).collect();
+    if targets.is_empty() {
+        return p;
+    }
+    let at = *rng.pick(&targets);
+    let searched = random_game(&mut rng, pool, 8, false);
+    let other = random_game(&mut rng, pool, 8, false);
+    if !searched.root().has_legal_move() {
+        return p;
+    }
+    let mut g = GoSpec::none();
+    g.infinite = true;
+    g.layout = rng.next_u64();
+    let poll = p.knobs.poll_interval;
+    let mut lines = vec![other.render()];
+    if rng.chance(1, 2) {
+        lines.push("stop".into());
+    }
+    let mut events = vec![Ev { at_node: poll * (1 + rng.below(3)), lines }];
+    events.push(Ev { at_node: events[0].at_node + poll * rng.below(3), lines: vec!["stop".into()] });
+    let c = Cycle { newgame: false, pos: PosSpec::Set { fen: searched.fen.clone(), moves: searched.moves.clone() }, pre_lines: vec![], go: g, ns_per_node: 1000, gap_ns: 1_000_000, jumps: vec![], stop_before_dequeue: false, events, post_lines: vec![] };
+    p.cycles.insert(at, c);
+    p
 }
 
 /// C11: exactness-style sessions (no searchmoves) run on a position and its colour-flipped twin.
